@@ -9,6 +9,7 @@ import (
 	"crypto/ed25519"
 	"encoding/gob"
 	"fmt"
+	"sync"
 	"time"
 
 	log "github.com/sirupsen/logrus"
@@ -33,6 +34,11 @@ type Core struct {
 	signPriv     ed25519.PrivateKey
 
 	store *storage.Store
+
+	// dispatchingBundles holds the IDs of those bundles which are dispatched right now. The Core's handler, the
+	// pending bundles' job and the application agents work in goroutines of their own; a bundle marked as pending
+	// at the start of its forwarding must not be picked up a second time while this forwarding is still going on.
+	dispatchingBundles sync.Map
 
 	stopSyn chan struct{}
 	stopAck chan struct{}
